@@ -426,9 +426,6 @@ fn op_apply(rep: &mut Report, scratch: &Scratch, op: &str, base: &[u8], delta: &
             None => "unchecked",
         }
     ));
-    if obs == "panic" && matches!(declared_sizes(delta), Some((0, 0))) {
-        rep.outside_domain("decode_entry panics on a delta whose declared base and result sizes are both 0 (slice out of range in resolve_deltas); git never writes such a delta");
-    }
     if let Some(want) = expect {
         rep.oracle_checked();
         if obs != format!("ok {want}") {
@@ -640,10 +637,6 @@ fn synthetic_apply(r: &mut Rng) -> String {
                 delta = d2;
             }
         }
-        return format!("apply {base_text} {} *", hex(&delta));
-    }
-    if base.is_empty() && target.is_empty() {
-        // resolve_deltas cannot handle a delta whose declared sizes are both 0 (reported, outside C07)
         return format!("apply {base_text} {} *", hex(&delta));
     }
     format!("apply {base_text} {} {}", hex(&delta), bobs(&target))
@@ -895,7 +888,8 @@ fn corpus(rep: &mut Report, scratch: &Scratch) {
         ("616263", "03020178", "*"),                        // target one byte short
         ("616263", "03010278", "*"),                        // insert longer than data
         ("-", "000101ff", "ff"),
-        ("-", "0000", "*"),                                 // Props.C07.empty_delta_panics: resolve_deltas quirk
+        ("-", "0000", "-"),                                 // Props.C07.empty_delta_ok: panicked before a28439df2
+        ("-", "000001ff", "*"),
         ("x65536:ab", "80800480800480", "65536:*"),         // copy with no size bytes = 0x10000
         ("x65537:ab", "81800481800491010190000001", "*"),
         ("x70000:0102", "f0a204808004b0000001", "*"),
